@@ -130,7 +130,7 @@ fn main() {
                 let pv: Vec<(String, std::collections::BTreeMap<String, serde_json::Value>)> =
                     per_variant.iter().map(|(n, o)| (if n.is_empty() { "default".to_string() } else { n.clone() }, o.cov.extra.clone())).collect();
                 // the merged extras are sums over variants: drop them, keep the per-variant table
-                for k in ["digest_writer_model_states", "digest_reader_transitions", "digest_stream_evaluations", "writer_model_states"] {
+                for k in ["digest_writer_model_states", "digest_reader_model_transitions", "reader_model_transitions", "digest_stream_evaluations", "writer_model_states"] {
                     total.cov.extra.remove(k);
                 }
                 props::builds::post_merge(&pv, &mut total);
